@@ -846,13 +846,13 @@ pub const EXPECTED_PROBES: &[&str] = &[
 ];
 
 pub const COMPONENTS: &[&str] = &[
-    "REAL  cli/src/{main,parse,writer,config,args}.rs and typeshare-core: compiled from /repo's working tree (shadow manifests, features go+python)",
+    "REAL  every module of cli/src and typeshare-core: /repo's working tree copied to sim/gen with one cfg-guarded `use` line per module (tools/seam_inject.py), compiled through shadow manifests, features go+python",
     "REAL  syn, clap, toml, anyhow, itertools and the other dependencies at /repo/Cargo.lock versions",
     "REAL  ignore::WalkParallel: source of ignore 0.4.23 with the seam patch (scheduler-owned scope/sleep/atomics, name-sorted readdir, injectable readdir error)",
     "REAL  crossbeam-deque work-stealing deques inside the walker (non-blocking; atomic between scheduling points)",
-    "REAL  std RandomState, keys supplied through the interposed getrandom symbol",
+    "REAL  std RandomState, keys supplied through the interposed getrandom symbol; wall clock through the interposed clock_gettime symbol",
     "REAL  file system: tmpfs scratch directory under /dev/shm (pass-through seam with op log and fault injection)",
-    "STUB  crossbeam::channel::bounded -> shuttle mpsc::sync_channel + fault layer (delay, reorder, capacity knob)",
-    "STUB  std::thread::{spawn,scope}, atomics, sleep -> shuttle (coroutines on one OS thread, every switch a scheduler decision)",
+    "STUB  crossbeam::channel::{bounded,unbounded} -> multi-producer multi-consumer queue on the scheduler's Mutex/Condvar + fault layer (delay, reorder, arrival permutation, capacity knob); timed operations do not model time",
+    "STUB  std::thread::{spawn,scope,Builder}, std::sync::{Mutex,RwLock,Condvar,Barrier,Once,mpsc,atomic}, sleep -> shuttle (coroutines on one OS thread per invocation, every switch a scheduler decision)",
     "NOT RUN  flexi_logger (a capturing log::Log records WARN/ERROR lines), main()'s own body (verif_hooks::run_once mirrors its dispatch)",
 ];
